@@ -144,7 +144,26 @@ func ruleC20_7(c *Ctx) {
 		}
 		c.check(okLd && okErr, R, n, "loads the key named by the first argument; a load error is returned", f.Pos(), "key.LoadKeyDefaults(args[0])", "the command does not load (or ignores errors of loading) the key file given as argument")
 		pr := firstCall(f, "fmt.Printf")
-		okPrint := pr != nil && ld != nil && c.okCallAt(ld, pr.Block()) && derives(pr.Common().Args[1], func(v ssa.Value) bool { return org(v) == "local(key).KeyID" }, false)
+		// the loaded key variable: the receiver of LoadKeyDefaults (whatever it is called)
+		var keyVar ssa.Value
+		if ld != nil {
+			keyVar = ld.Common().Args[0]
+		}
+		fieldOfKey := func(v ssa.Value, path ...string) bool {
+			// v is (a load of) keyVar.path...
+			if u, ok := v.(*ssa.UnOp); ok {
+				v = u.X
+			}
+			for i := len(path) - 1; i >= 0; i-- {
+				fa, ok := v.(*ssa.FieldAddr)
+				if !ok || fieldName(fa.X.Type(), fa.Field) != path[i] {
+					return false
+				}
+				v = fa.X
+			}
+			return v == keyVar
+		}
+		okPrint := pr != nil && ld != nil && c.okCallAt(ld, pr.Block()) && derives(pr.Common().Args[1], func(v ssa.Value) bool { return fieldOfKey(v, "KeyID") }, false)
 		c.check(okPrint, R, n, "prints the loaded key's id", f.Pos(), "key.KeyID after a successful load", "the printed id is not the loaded key's KeyID")
 		if n == "cmd.keyLayout" {
 			mj := firstCall(f, "encoding/json.Marshal")
@@ -152,7 +171,7 @@ func ruleC20_7(c *Ctx) {
 			if mj != nil {
 				for _, b := range f.Blocks {
 					for _, in := range b.Instrs {
-						if st, ok := in.(*ssa.Store); ok && org(st.Addr) == "local(key).KeyVal.Private" {
+						if st, ok := in.(*ssa.Store); ok && fieldOfKey(st.Addr, "KeyVal", "Private") {
 							if s, isS := constString(st.Val); isS && s == "" && instrDominates(st, mj) {
 								okPriv = true
 							}
